@@ -1,4 +1,6 @@
 import StrettoModel.Proofs.Agree
+import StrettoModel.Props.C05
+import StrettoModel.Props.C06
 /-!
 # C04 — Below capacity the cache is an exact map: nothing is lost
 
@@ -8,7 +10,8 @@ the written key and the *frame* (every other key, the callback log) — i.e. the
 the refinement "cache at quiescent points = map with TTLs" under the premise that the policy has
 room (`NoPressure`: the admission finds `room_left ≥ 0` and the cost fits `max_cost`; a sufficient
 user-level condition is that the combined charge of all entries not yet reclaimed fits `max_cost`).
-P (partial): the squares are not yet composed into one statement over arbitrary-length histories.
+The squares are composed over sequential histories (each operation taken to quiescence) in
+`refines_ttl_map`; for overlapping operations the run-time no-loss monitor carries the composition.
 -/
 namespace Stretto.C04
 open Stretto
@@ -157,9 +160,676 @@ theorem fits_implies_no_pressure (c : Cache) (cost : Int) (hnn : 0 ≤ c.lfu.use
   unfold NoPressure Lfu.roomLeft
   constructor <;> omega
 
+
+-- composition: sequential histories taken to quiescence refine a map with TTLs -------------------------
+
+/-- a quiescent state: nothing buffered, nothing blocked, processor alive, C06's and C05's invariants -/
+structure Quiet (c : Cache) : Prop where
+  buf : c.buf = []
+  pend : c.pendingSends = []
+  opn : c.closed = false
+  alive : c.procExited = false
+  inv : Inv06 c
+  em : EmInv c.store
+  cap : 0 < c.cfg.bufCap
+
+/-- at quiescence, charged = resident -/
+theorem Quiet.charged_iff {c : Cache} (q : Quiet c) (k : Nat) :
+    (c.lfu.costs.get k).isSome = (c.store.items.get k).isSome := by
+  cases hs : (c.store.items.get k).isSome with
+  | true => exact q.inv.resident_charged k hs
+  | false =>
+    cases hc : (c.lfu.costs.get k).isSome with
+    | false => rfl
+    | true =>
+      rcases q.inv.charged_resident k hc with h1 | ⟨cf, hm⟩
+      · rw [hs] at h1; cases h1
+      · rw [q.buf, q.pend] at hm; cases hm
+
+/-- two consecutive steps of the transition system from a quiescent state that end with an empty
+buffer end in a quiescent state (the invariants come from C06 and C05) -/
+theorem two_steps_quiet (su : Nat → Nat → Bool) (c c1 c2 : Cache) (a1 a2 : Act) (q : Quiet c)
+    (h1 : c.step su a1 = some c1) (h2 : c1.step su a2 = some c2)
+    (ok1 : C06.ActOk c a1) (ok2 : C06.ActOk c1 a2) (g1 : C05.TickGuard c a1) (g2 : C05.TickGuard c1 a2)
+    (hb : c2.buf = []) (hp : c2.pendingSends = []) (ho : c2.closed = false) (ha : c2.procExited = false)
+    (hc : c2.cfg = c.cfg) : Quiet c2 := by
+  have hg1 := C06.step_good su c c1 a1 ok1 h1 (Or.inr q.inv)
+  have hg2 := C06.step_good su c1 c2 a2 ok2 h2 hg1
+  have he1 := C05.step_emInv su c c1 a1 g1 h1 q.em
+  have he2 := C05.step_emInv su c1 c2 a2 g2 h2 he1
+  refine ⟨hb, hp, ho, ha, ?_, he2, by rw [hc]; exact q.cap⟩
+  rcases hg2 with he | h
+  · rw [ha] at he; cases he
+  · exact h
+
+/-- the cost an insert attaches to its item -/
+def itemCost (cost coster : Int) : Int := cost + (if cost == 0 then coster else 0)
+
+/-- what the client half of an insert does at quiescence -/
+theorem insert_at_quiet (su : Nat → Nat → Bool) (c : Cache) (k cf v : Nat) (cost : Int) (ttl now : Nat)
+    (coster : Int) (q : Quiet c) (c1 : Cache) (hc1 : c1 = (c.insert su k cf v cost ttl now coster false).1) :
+    c1.lfu = c.lfu ∧ c1.pendingSends = [] ∧ c1.closed = false ∧ c1.procExited = false ∧ c1.cfg = c.cfg ∧
+    c1.store = (c.store.tryUpdate su k v cf ⟨ttl, now⟩).1 ∧
+    c1.buf = [match (c.store.tryUpdate su k v cf ⟨ttl, now⟩).2 with
+              | .update _ => Item.update k cost (if cost == 0 then coster else 0)
+              | _ => Item.new k cf (itemCost cost coster) v ⟨ttl, now⟩] := by
+  subst hc1
+  have hroomB : (decide (c.buf.length < c.cfg.bufCap) && !c.procExited) = true := by
+    simp [q.buf, q.cap, q.alive]
+  have hst := (Store.tryUpdate_count c.store su k v cf ⟨ttl, now⟩ q.inv.storeWF 0).1
+  unfold Cache.insert Cache.insertBody
+  simp only [q.opn, Bool.false_eq_true, ↓reduceIte, Bool.false_and, hroomB, q.buf, List.nil_append]
+  cases hr : (c.store.tryUpdate su k v cf ⟨ttl, now⟩).2 with
+  | update old => simp [q.pend, q.opn, q.alive, q.cap]
+  | notExist => rw [hr] at hst; simp only at hst; simp [q.pend, q.opn, q.alive, q.cap, hst, itemCost]
+  | reject => rw [hr] at hst; simp only at hst; simp [q.pend, q.opn, q.alive, q.cap, hst, itemCost]
+  | conflict => rw [hr] at hst; simp only at hst; simp [q.pend, q.opn, q.alive, q.cap, hst, itemCost]
+
+/-- the processor's half: with one item buffered and nothing pending it handles that item -/
+theorem procItem_single (su : Nat → Nat → Bool) (c1 : Cache) (it : Item) (est : Nat → Int)
+    (refills : List (List (Nat × Int))) (hb : c1.buf = [it]) (hp : c1.pendingSends = []) (ha : c1.procExited = false) :
+    c1.procItem su est refills = some (({ c1 with buf := [] } : Cache).handleItem su est refills it) := by
+  simp only [Cache.procItem, ha, Bool.false_eq_true, ↓reduceIte, hb, Cache.admitPending, hp]
+
+
+/-- `handle_item` leaves the blocked senders, the closed flag and the configuration alone -/
+theorem handleItem_frame3 (c : Cache) (su : Nat → Nat → Bool) (est : Nat → Int)
+    (refills : List (List (Nat × Int))) (it : Item) :
+    (c.handleItem su est refills it).pendingSends = c.pendingSends ∧
+    (c.handleItem su est refills it).closed = c.closed ∧
+    (c.handleItem su est refills it).cfg = c.cfg := by
+  have hev : ∀ (vs : List (Nat × Int)) (c0 : Cache), (c0.evictVictims vs).pendingSends = c0.pendingSends ∧
+      (c0.evictVictims vs).closed = c0.closed ∧ (c0.evictVictims vs).cfg = c0.cfg := by
+    intro vs
+    induction vs with
+    | nil => intro c0; exact ⟨rfl, rfl, rfl⟩
+    | cons p rest ih =>
+      intro c0
+      obtain ⟨vk, vc⟩ := p
+      simp only [Cache.evictVictims]
+      cases (c0.store.tryRemove vk 0).2 with
+      | none => exact ih c0
+      | some e =>
+        simp only
+        obtain ⟨h1, h2, h3⟩ := ih (if c0.tracked.contains vk = true then
+          ({ c0 with store := (c0.store.tryRemove vk 0).1, cbs := CB.evict vk e.conflict e.val vc :: c0.cbs,
+                     tracked := c0.tracked.filter (· != vk) } : Cache).met fun m => { m with lifeCount := m.lifeCount + 1 }
+          else { c0 with store := (c0.store.tryRemove vk 0).1, cbs := CB.evict vk e.conflict e.val vc :: c0.cbs,
+                         tracked := c0.tracked.filter (· != vk) })
+        refine ⟨h1.trans ?_, h2.trans ?_, h3.trans ?_⟩ <;> (split <;> simp)
+  cases it with
+  | wait w => exact ⟨rfl, rfl, rfl⟩
+  | update k cost ext => simp [Cache.handleItem]
+  | delete k cf =>
+    simp only [Cache.handleItem]
+    cases (c.store.tryRemove k cf).2 <;> (simp only; split <;> simp)
+  | new k cf cost v exp =>
+    simp only [Cache.handleItem]
+    have key : ∀ (c3 : Cache) (o : Option (List (Nat × Int))),
+        (c3.pendingSends = c.pendingSends ∧ c3.closed = c.closed ∧ c3.cfg = c.cfg) →
+        ((match o with | some vs => c3.evictVictims vs | none => c3).pendingSends = c.pendingSends ∧
+         (match o with | some vs => c3.evictVictims vs | none => c3).closed = c.closed ∧
+         (match o with | some vs => c3.evictVictims vs | none => c3).cfg = c.cfg) := by
+      intro c3 o h
+      cases o with
+      | none => exact h
+      | some vs =>
+        obtain ⟨e1, e2, e3⟩ := hev vs c3
+        exact ⟨e1.trans h.1, e2.trans h.2.1, e3.trans h.2.2⟩
+    apply key
+    split
+    · split <;> simp
+    · simp
+
+/-- an insert taken to quiescence: the client call, then the processor applies the one buffered item -/
+def qInsert (su : Nat → Nat → Bool) (c : Cache) (k cf v : Nat) (cost : Int) (ttl now : Nat) (coster : Int)
+    (est : Nat → Int) (refills : List (List (Nat × Int))) : Cache :=
+  let c1 := (c.insert su k cf v cost ttl now coster false).1
+  (c1.procItem su est refills).getD c1
+
+/-- **insert, composed**: from a quiescent state, `insert` followed by the processor's handling of
+its item leads to a quiescent state in which
+* a key that was absent, inserted under `NoPressure`, is resident with exactly that value and TTL;
+* a resident key whose update is allowed carries the new value and TTL;
+* a resident key whose update is vetoed (validator or conflict hash) is unchanged;
+and every other key is untouched. -/
+theorem qInsert_refines (su : Nat → Nat → Bool) (c : Cache) (k cf v : Nat) (cost : Int) (ttl now : Nat)
+    (coster : Int) (est : Nat → Int) (refills : List (List (Nat × Int))) (q : Quiet c)
+    (hroom : c.store.items.get k = none → NoPressure c (itemCost cost coster))
+    (c' : Cache) (hc' : c' = qInsert su c k cf v cost ttl now coster est refills) :
+    Quiet c' ∧
+    (∀ j, j ≠ k → c'.store.items.get j = c.store.items.get j) ∧
+    c'.store.items.get k =
+      (match c.store.items.get k with
+       | none => some ⟨cf, v, ⟨ttl, now⟩⟩
+       | some e => if Store.conflictOk cf e && su e.val v then some { e with val := v, exp := ⟨ttl, now⟩ }
+                   else some e) := by
+  obtain ⟨f_lfu, f_pend, f_open, f_alive, f_cfg, f_store, f_buf⟩ :=
+    insert_at_quiet su c k cf v cost ttl now coster q _ rfl
+  have hstep1 : c.step su (.insert k cf v cost ttl now coster false) =
+      some (c.insert su k cf v cost ttl now coster false).1 := rfl
+  have hproc := procItem_single su (c.insert su k cf v cost ttl now coster false).1 _ est refills f_buf f_pend f_alive
+  have hc'2 : c' = ({ (c.insert su k cf v cost ttl now coster false).1 with buf := [] } : Cache).handleItem su est refills
+      (match (c.store.tryUpdate su k v cf ⟨ttl, now⟩).2 with
+       | .update _ => Item.update k cost (if cost == 0 then coster else 0)
+       | _ => Item.new k cf (itemCost cost coster) v ⟨ttl, now⟩) := by
+    rw [hc']; unfold qInsert; simp only [hproc, Option.getD_some]
+  have hstep2 : (c.insert su k cf v cost ttl now coster false).1.step su (.procItem est refills) = some c' := by
+    simp only [Cache.step]; rw [hproc, hc'2]
+  -- abbreviations for the state the processor starts from
+  generalize hc0 : ({ (c.insert su k cf v cost ttl now coster false).1 with buf := [] } : Cache) = c0 at hc'2
+  have c0_store : c0.store = (c.store.tryUpdate su k v cf ⟨ttl, now⟩).1 := by rw [← hc0]; exact f_store
+  have c0_lfu : c0.lfu = c.lfu := by rw [← hc0]; exact f_lfu
+  have c0_cfg : c0.cfg = c.cfg := by rw [← hc0]; exact f_cfg
+  have c0_buf : c0.buf = [] := by rw [← hc0]
+  have c0_pend : c0.pendingSends = [] := by rw [← hc0]; exact f_pend
+  have c0_open : c0.closed = false := by rw [← hc0]; exact f_open
+  have c0_alive : c0.procExited = false := by rw [← hc0]; exact f_alive
+  obtain ⟨fr1, fr2, fr3⟩ := handleItem_frame3 c0 su est refills
+    (match (c.store.tryUpdate su k v cf ⟨ttl, now⟩).2 with
+       | .update _ => Item.update k cost (if cost == 0 then coster else 0)
+       | _ => Item.new k cf (itemCost cost coster) v ⟨ttl, now⟩)
+  -- quiescence of the result, given that no victim is the incoming key
+  have quiet_of : C06.ActOk (c.insert su k cf v cost ttl now coster false).1 (.procItem est refills) → Quiet c' := by
+    intro ok2
+    refine two_steps_quiet su c _ c' _ _ q hstep1 hstep2 trivial ok2 trivial trivial ?_ ?_ ?_ ?_ ?_
+    · rw [hc'2, handleItem_buf]; exact c0_buf
+    · rw [hc'2, fr1]; exact c0_pend
+    · rw [hc'2, fr2]; exact c0_open
+    · rw [hc'2, handleItem_procExited]; exact c0_alive
+    · rw [hc'2, fr3]; exact c0_cfg
+  cases hg : c.store.items.get k with
+  | none =>
+    have hu : c.store.tryUpdate su k v cf ⟨ttl, now⟩ = (c.store, .notExist) := by simp [Store.tryUpdate, hg]
+    rw [hu] at hc'2 c0_store f_buf
+    simp only at hc'2 c0_store f_buf
+    have hnc : c0.lfu.costs.get k = none := by
+      rw [c0_lfu]
+      have := q.charged_iff k
+      rw [hg] at this
+      cases h : c.lfu.costs.get k with
+      | none => rfl
+      | some x => rw [h] at this; cases this
+    have hnp : NoPressure c0 (itemCost cost coster) := by
+      have := hroom hg
+      unfold NoPressure Cache.internalCost at *
+      rw [c0_lfu, c0_cfg]; exact this
+    have happ := new_item_applied_when_room c0 su est refills k cf v (itemCost cost coster) ⟨ttl, now⟩
+      (by rw [c0_lfu]; exact q.inv.lfuInv) (by rw [c0_store]; exact hg) hnc hnp
+    simp only at happ
+    refine ⟨quiet_of ?_, ?_, ?_⟩
+    · simp only [C06.ActOk]
+      intro it rest hb
+      rw [f_buf] at hb
+      have hit : it = Item.new k cf (itemCost cost coster) v ⟨ttl, now⟩ := by cases hb; rfl
+      have hrest : rest = [] := by cases hb; rfl
+      subst hit; subst hrest
+      have hadm : (({ (c.insert su k cf v cost ttl now coster false).1 with buf := [] } : Cache).admitPending) = c0 := by
+        rw [← hc0]; simp [Cache.admitPending, f_pend]
+      rw [hadm]
+      simp only [VictimsOk]
+      intro vs hvs
+      have := ((policyAdd_spec c0.lfu est k (c0.internalCost (itemCost cost coster)) refills
+        (by rw [c0_lfu]; exact q.inv.lfuInv)).room hnp.1 hnc hnp.2).2.1
+      rw [this] at hvs; cases hvs
+    · intro j hj; rw [hc'2, happ.2.1 j hj, c0_store]
+    · rw [hc'2]; simpa using happ.1
+  | some e =>
+    by_cases hok : (Store.conflictOk cf e && su e.val v) = true
+    · -- the update is applied by the client call itself; the processor only re-charges
+      have hcfe : Store.conflictOk cf e = true := by simp only [Bool.and_eq_true] at hok; exact hok.1
+      have hsue : su e.val v = true := by simp only [Bool.and_eq_true] at hok; exact hok.2
+      have hu : c.store.tryUpdate su k v cf ⟨ttl, now⟩ =
+          ({ items := c.store.items.set k { e with val := v, exp := ⟨ttl, now⟩ },
+             em := c.store.em.tryUpdate k cf e.exp ⟨ttl, now⟩ }, .update e.val) := by
+        simp [Store.tryUpdate, hg, hcfe, hsue]
+      rw [hu] at hc'2 c0_store f_buf
+      simp only at hc'2 c0_store f_buf
+      have hst : c'.store = c0.store := by rw [hc'2]; simp [Cache.handleItem]
+      refine ⟨quiet_of ?_, ?_, ?_⟩
+      · simp only [C06.ActOk]
+        intro it rest hb
+        rw [f_buf] at hb
+        have hit : it = Item.update k cost (if cost == 0 then coster else 0) := by cases hb; rfl
+        subst hit
+        trivial
+      · intro j hj; rw [hst, c0_store]; simp [hj]
+      · rw [hst, c0_store]; simp [hok]
+    · -- vetoed (validator or conflict hash): a `New` item goes to the processor, which finds the key
+      -- charged and hands the value to `on_reject`; the store is untouched
+      have hu : (c.store.tryUpdate su k v cf ⟨ttl, now⟩).1 = c.store ∧
+          (∀ old, (c.store.tryUpdate su k v cf ⟨ttl, now⟩).2 ≠ .update old) := by
+        simp only [Bool.and_eq_true, not_and, Bool.not_eq_true] at hok
+        unfold Store.tryUpdate
+        simp only [hg]
+        by_cases h1 : Store.conflictOk cf e = true
+        · have h2 := hok h1
+          simp [h1, h2]
+        · simp [h1]
+      have hitem : (match (c.store.tryUpdate su k v cf ⟨ttl, now⟩).2 with
+            | .update _ => Item.update k cost (if cost == 0 then coster else 0)
+            | _ => Item.new k cf (itemCost cost coster) v ⟨ttl, now⟩) =
+          Item.new k cf (itemCost cost coster) v ⟨ttl, now⟩ := by
+        cases hr : (c.store.tryUpdate su k v cf ⟨ttl, now⟩).2 with
+        | update old => exact absurd hr (hu.2 old)
+        | _ => rfl
+      rw [hitem] at hc'2 f_buf
+      rw [hu.1] at c0_store
+      have hch : ∃ prev, c0.lfu.costs.get k = some prev := by
+        rw [c0_lfu]
+        have := q.inv.resident_charged k (by simp [hg])
+        exact Option.isSome_iff_exists.mp this
+      have hspec := policyAdd_spec c0.lfu est k (c0.internalCost (itemCost cost coster)) refills
+        (by rw [c0_lfu]; exact q.inv.lfuInv)
+      -- an over-sized item changes nothing either; otherwise the charged key is re-charged in place
+      have hres : (policyAdd c0.lfu est k (c0.internalCost (itemCost cost coster)) refills).added = false ∧
+          (policyAdd c0.lfu est k (c0.internalCost (itemCost cost coster)) refills).victims = none := by
+        by_cases hbig : c0.internalCost (itemCost cost coster) > c0.lfu.maxCost
+        · exact ⟨(hspec.oversize hbig).1, (hspec.oversize hbig).2.2⟩
+        · have := hspec.update (by omega) hch
+          exact ⟨this.1, this.2.1⟩
+      have hst : c'.store = c0.store := by
+        rw [hc'2]; simp [Cache.handleItem, hres.1, hres.2]
+      refine ⟨quiet_of ?_, ?_, ?_⟩
+      · simp only [C06.ActOk]
+        intro it rest hb
+        rw [f_buf] at hb
+        have hit : it = Item.new k cf (itemCost cost coster) v ⟨ttl, now⟩ := by cases hb; rfl
+        have hrest : rest = [] := by cases hb; rfl
+        subst hit; subst hrest
+        have hadm : (({ (c.insert su k cf v cost ttl now coster false).1 with buf := [] } : Cache).admitPending) = c0 := by
+          rw [← hc0]; simp [Cache.admitPending, f_pend]
+        rw [hadm]
+        simp only [VictimsOk]
+        intro vs hvs
+        rw [hres.2] at hvs; cases hvs
+      · intro j _; rw [hst, c0_store]
+      · rw [hst, c0_store, hg]; simp [hok]
+
+
+/-- what the client half of a remove does at quiescence -/
+theorem remove_at_quiet (c : Cache) (k cf : Nat) (q : Quiet c) (c1 : Cache) (hc1 : c1 = (c.remove k cf).1) :
+    c1.lfu = c.lfu ∧ c1.pendingSends = [] ∧ c1.closed = false ∧ c1.procExited = false ∧ c1.cfg = c.cfg ∧
+    c1.store = (c.store.tryRemove k cf).1 ∧ c1.buf = [Item.delete k cf] := by
+  subst hc1
+  unfold Cache.remove
+  simp only [q.opn, Bool.false_eq_true, ↓reduceIte]
+  have hst : (c.store.tryRemove k cf).2 = none → (c.store.tryRemove k cf).1 = c.store :=
+    Store.tryRemove_none_store c.store k cf
+  cases hr : (c.store.tryRemove k cf).2 with
+  | none => simp [q.buf, q.pend, q.cap, q.opn, q.alive, hst hr]
+  | some e => simp [q.buf, q.pend, q.cap, q.opn, q.alive]
+
+/-- a remove taken to quiescence -/
+def qRemove (su : Nat → Nat → Bool) (c : Cache) (k cf : Nat) (est : Nat → Int) (refills : List (List (Nat × Int))) : Cache :=
+  let c1 := (c.remove k cf).1
+  (c1.procItem su est refills).getD c1
+
+/-- **remove, composed**: the key is gone (if its conflict hash matched), nothing else moved -/
+theorem qRemove_refines (su : Nat → Nat → Bool) (c : Cache) (k cf : Nat) (est : Nat → Int)
+    (refills : List (List (Nat × Int))) (q : Quiet c) (c' : Cache) (hc' : c' = qRemove su c k cf est refills) :
+    Quiet c' ∧
+    (∀ j, j ≠ k → c'.store.items.get j = c.store.items.get j) ∧
+    c'.store.items.get k =
+      (match c.store.items.get k with
+       | none => none
+       | some e => if Store.conflictOk cf e then none else some e) := by
+  obtain ⟨f_lfu, f_pend, f_open, f_alive, f_cfg, f_store, f_buf⟩ := remove_at_quiet c k cf q _ rfl
+  have hstep1 : c.step su (.remove k cf) = some (c.remove k cf).1 := rfl
+  have hproc := procItem_single su (c.remove k cf).1 _ est refills f_buf f_pend f_alive
+  have hc'2 : c' = ({ (c.remove k cf).1 with buf := [] } : Cache).handleItem su est refills (Item.delete k cf) := by
+    rw [hc']; unfold qRemove; simp only [hproc, Option.getD_some]
+  have hstep2 : (c.remove k cf).1.step su (.procItem est refills) = some c' := by
+    simp only [Cache.step]; rw [hproc, hc'2]
+  generalize hc0 : ({ (c.remove k cf).1 with buf := [] } : Cache) = c0 at hc'2
+  have c0_store : c0.store = (c.store.tryRemove k cf).1 := by rw [← hc0]; exact f_store
+  have c0_cfg : c0.cfg = c.cfg := by rw [← hc0]; exact f_cfg
+  have c0_buf : c0.buf = [] := by rw [← hc0]
+  have c0_pend : c0.pendingSends = [] := by rw [← hc0]; exact f_pend
+  have c0_open : c0.closed = false := by rw [← hc0]; exact f_open
+  have c0_alive : c0.procExited = false := by rw [← hc0]; exact f_alive
+  obtain ⟨fr1, fr2, fr3⟩ := handleItem_frame3 c0 su est refills (Item.delete k cf)
+  have hq : Quiet c' := by
+    refine two_steps_quiet su c _ c' _ _ q hstep1 hstep2 trivial ?_ trivial trivial ?_ ?_ ?_ ?_ ?_
+    · simp only [C06.ActOk]
+      intro it rest hb
+      rw [f_buf] at hb
+      have hit : it = Item.delete k cf := by cases hb; rfl
+      subst hit
+      trivial
+    · rw [hc'2, handleItem_buf]; exact c0_buf
+    · rw [hc'2, fr1]; exact c0_pend
+    · rw [hc'2, fr2]; exact c0_open
+    · rw [hc'2, handleItem_procExited]; exact c0_alive
+    · rw [hc'2, fr3]; exact c0_cfg
+  -- the store after both halves: `try_remove` applied twice
+  have hst : ∀ j, c'.store.items.get j = ((c0.store.tryRemove k cf).1).items.get j := by
+    intro j
+    rw [hc'2]
+    simp only [Cache.handleItem]
+    cases (c0.store.tryRemove k cf).2 <;> (simp only; split <;> simp)
+  refine ⟨hq, ?_, ?_⟩
+  · intro j hj
+    rw [hst j, Store.tryRemove_get, c0_store, Store.tryRemove_get]
+    simp [hj]
+  · rw [hst k, Store.tryRemove_get, c0_store, Store.tryRemove_get]
+    cases hg : c.store.items.get k with
+    | none => simp
+    | some e =>
+      by_cases hcf : Store.conflictOk cf e = true
+      · have := (Store.tryRemove_some_iff c.store k cf e).mpr ⟨hg, hcf⟩
+        simp [this, hcf]
+      · have hn : (c.store.tryRemove k cf).2 = none := by
+          cases h : (c.store.tryRemove k cf).2 with
+          | none => rfl
+          | some e' =>
+            have := (Store.tryRemove_some_iff c.store k cf e').mp h
+            rw [hg] at this
+            have he : e = e' := by simpa using this.1
+            subst he
+            exact absurd this.2 hcf
+        have hs := Store.tryRemove_none_store c.store k cf hn
+        simp [hn, hs, hcf, hg]
+
+
+/-- a cleanup tick leaves the blocked senders, the flags and the configuration alone -/
+theorem sweepKeys_frame4 (keys : List (Nat × Nat)) (c : Cache) (now : Nat) (acc : List CB) :
+    (c.sweepKeys now keys acc).1.pendingSends = c.pendingSends ∧ (c.sweepKeys now keys acc).1.closed = c.closed ∧
+    (c.sweepKeys now keys acc).1.procExited = c.procExited ∧ (c.sweepKeys now keys acc).1.cfg = c.cfg := by
+  induction keys generalizing c acc with
+  | nil => simp [Cache.sweepKeys]
+  | cons p rest ih =>
+    obtain ⟨k, cf⟩ := p
+    simp only [Cache.sweepKeys]
+    obtain ⟨h1, h2, h3, h4⟩ := ih (c.sweepOne now k cf).1
+      (match (c.sweepOne now k cf).2 with | some cb => cb :: acc | none => acc)
+    have hone : (c.sweepOne now k cf).1.pendingSends = c.pendingSends ∧ (c.sweepOne now k cf).1.closed = c.closed ∧
+        (c.sweepOne now k cf).1.procExited = c.procExited ∧ (c.sweepOne now k cf).1.cfg = c.cfg := by
+      unfold Cache.sweepOne
+      cases c.store.expiration k with
+      | none => exact ⟨rfl, rfl, rfl, rfl⟩
+      | some t =>
+        simp only
+        split
+        · cases (c.store.tryRemove k cf).2 <;> simp
+        · exact ⟨rfl, rfl, rfl, rfl⟩
+    exact ⟨h1.trans hone.1, h2.trans hone.2.1, h3.trans hone.2.2.1, h4.trans hone.2.2.2⟩
+
+theorem deliverEvictions_frame4 (cbs : List CB) (c : Cache) :
+    (c.deliverEvictions cbs).closed = c.closed ∧ (c.deliverEvictions cbs).procExited = c.procExited ∧
+    (c.deliverEvictions cbs).cfg = c.cfg := by
+  induction cbs generalizing c with
+  | nil => simp [Cache.deliverEvictions]
+  | cons cb rest ih =>
+    simp only [Cache.deliverEvictions]
+    obtain ⟨h1, h2, h3⟩ := ih ({ (match cb with
+      | .evict k _ _ _ =>
+        let tracked := c.tracked.contains k
+        let c := { c with tracked := c.tracked.filter (· != k) }
+        if tracked then c.met fun m => { m with lifeCount := m.lifeCount + 1 } else c
+      | _ => c) with cbs := cb :: (match cb with
+      | .evict k _ _ _ =>
+        let tracked := c.tracked.contains k
+        let c := { c with tracked := c.tracked.filter (· != k) }
+        if tracked then c.met fun m => { m with lifeCount := m.lifeCount + 1 } else c
+      | _ => c).cbs })
+    refine ⟨h1.trans ?_, h2.trans ?_, h3.trans ?_⟩ <;>
+      (cases cb <;> simp only [] <;> (try split) <;> simp)
+
+/-- a cleanup tick at quiescence -/
+def qTick (c : Cache) (now : Nat) (order : List (Nat × Nat)) : Cache := (c.procTick now order).getD c
+
+/-- **tick, composed**: the tick only removes entries, never one that is still live, and always those
+whose bucket is due -/
+theorem qTick_refines (su : Nat → Nat → Bool) (c : Cache) (now : Nat) (order : List (Nat × Nat)) (q : Quiet c)
+    (hg : C05.TickGuard c (.procTick now order)) (c' : Cache) (hc' : c' = qTick c now order) :
+    Quiet c' ∧
+    (∀ j e, c'.store.items.get j = some e → c.store.items.get j = some e) ∧
+    (∀ j e, c.store.items.get j = some e → (e.exp.d = 0 ∨ now < e.exp.created + e.exp.d) →
+      c'.store.items.get j = some e) ∧
+    (∀ j e, c.store.items.get j = some e → e.exp.isZero = false →
+      e.exp.storageBucket ≤ Time.cleanupBucket now → c'.store.items.get j = none) := by
+  have hen : ∃ c2, c.procTick now order = some c2 := by
+    simp [Cache.procTick, q.alive]
+  obtain ⟨c2, hc2⟩ := hen
+  have hcc : c' = c2 := by rw [hc']; unfold qTick; rw [hc2]; rfl
+  subst hcc
+  have hstep : c.step su (.procTick now order) = some c' := by simp only [Cache.step]; exact hc2
+  have hgood := C06.step_good su c c' (.procTick now order) (show C06.ActOk c (.procTick now order) from hg.2) hstep (Or.inr q.inv)
+  have hem := C05.step_emInv su c c' (.procTick now order) hg hstep q.em
+  -- unfold the tick once
+  have hform : c' = ((({ c with store := { c.store with em := (c.store.em.tryCleanup now).1 } } : Cache).sweepKeys now order []).1).deliverEvictions
+      ((({ c with store := { c.store with em := (c.store.em.tryCleanup now).1 } } : Cache).sweepKeys now order []).2.reverse) := by
+    have h := hc2
+    simp only [Cache.procTick] at h
+    split at h
+    · cases h
+    · simp only [Option.some.injEq] at h; exact h.symm
+  have hd := deliverEvictions_frame
+    ((({ c with store := { c.store with em := (c.store.em.tryCleanup now).1 } } : Cache).sweepKeys now order []).2.reverse)
+    ((({ c with store := { c.store with em := (c.store.em.tryCleanup now).1 } } : Cache).sweepKeys now order []).1)
+  have hd4 := deliverEvictions_frame4
+    ((({ c with store := { c.store with em := (c.store.em.tryCleanup now).1 } } : Cache).sweepKeys now order []).2.reverse)
+    ((({ c with store := { c.store with em := (c.store.em.tryCleanup now).1 } } : Cache).sweepKeys now order []).1)
+  have hs4 := sweepKeys_frame4 order ({ c with store := { c.store with em := (c.store.em.tryCleanup now).1 } } : Cache) now []
+  have hsf := sweepKeys_frame order ({ c with store := { c.store with em := (c.store.em.tryCleanup now).1 } } : Cache) now []
+  have hquiet : Quiet c' := by
+    refine ⟨?_, ?_, ?_, ?_, ?_, hem, ?_⟩
+    · rw [hform, hd.2.2.1, hsf.1]; exact q.buf
+    · rw [hform, hd.2.2.2, hs4.1]; exact q.pend
+    · rw [hform, hd4.1, hs4.2.1]; exact q.opn
+    · rw [hform, hd4.2.1, hs4.2.2.1]; exact q.alive
+    · rcases hgood with he | h
+      · have : c'.procExited = false := by rw [hform, hd4.2.1, hs4.2.2.1]; exact q.alive
+        rw [this] at he; cases he
+      · exact h
+    · rw [hform, hd4.2.2, hs4.2.2.2]; exact q.cap
+  refine ⟨hquiet, ?_, ?_, ?_⟩
+  · intro j e hj
+    rw [hform, hd.1] at hj
+    exact Cache.sweepKeys_get_of_some order
+      ({ c with store := { c.store with em := (c.store.em.tryCleanup now).1 } } : Cache) now [] j e hj
+  · intro j e hj hlive
+    rw [hform, hd.1]
+    exact not_swept_early ({ c with store := { c.store with em := (c.store.em.tryCleanup now).1 } } : Cache) now order j e hj hlive
+  · intro j e hj hz hdue
+    rw [hform, hd.1]
+    obtain ⟨bk, cf, hb1, hb2⟩ := q.em j e hj hz
+    have hlisted : (j, cf) ∈ order :=
+      hg.1 _ (C05.cleanup_takes_all_due c.store.em now _ j cf bk (KMap.mem_of_get _ _ _ hb1) (KMap.mem_of_get _ _ _ hb2) hdue)
+    have hexp := C05.due_implies_expired e.exp now hdue
+    have hd0 : 0 < e.exp.d := by
+      have : e.exp.d ≠ 0 := by simpa [Time.isZero] using hz
+      omega
+    exact (C05.sweep_removes_listed ({ c with store := { c.store with em := (c.store.em.tryCleanup now).1 } } : Cache)
+      now order [] j cf e hj hd0 (by omega) hlisted (hg.2 j cf e hlisted hj)).1
+
+
+/-- a lookup at quiescence changes nothing the map view can see -/
+theorem qGet_refines (su : Nat → Nat → Bool) (c : Cache) (k cf now : Nat) (q : Quiet c) :
+    Quiet (c.get k cf now).1 ∧ (c.get k cf now).1.store = c.store := by
+  have hstep : c.step su (.get k cf now) = some (c.get k cf now).1 := rfl
+  have hgood := C06.step_good su c _ (.get k cf now) trivial hstep (Or.inr q.inv)
+  have hem := C05.step_emInv su c _ (.get k cf now) trivial hstep q.em
+  have hfr : (c.get k cf now).1.buf = c.buf ∧ (c.get k cf now).1.pendingSends = c.pendingSends ∧
+      (c.get k cf now).1.closed = c.closed ∧ (c.get k cf now).1.procExited = c.procExited ∧
+      (c.get k cf now).1.cfg = c.cfg ∧ (c.get k cf now).1.store = c.store := by
+    unfold Cache.get
+    simp only [q.opn, Bool.false_eq_true, ↓reduceIte]
+    split <;> simp [q.opn]
+  refine ⟨⟨by rw [hfr.1]; exact q.buf, by rw [hfr.2.1]; exact q.pend, by rw [hfr.2.2.1]; exact q.opn,
+    by rw [hfr.2.2.2.1]; exact q.alive, ?_, hem, by rw [hfr.2.2.2.2.1]; exact q.cap⟩, hfr.2.2.2.2.2⟩
+  rcases hgood with he | h
+  · rw [hfr.2.2.2.1, q.alive] at he; cases he
+  · exact h
+
+/-- `clear()` taken to quiescence: the request, then the processor serves it -/
+def qClear (c : Cache) (id : Nat) : Cache :=
+  let c1 := (c.clearReq id).1
+  (c1.procClear).getD c1
+
+theorem qClear_refines (su : Nat → Nat → Bool) (c : Cache) (id : Nat) (q : Quiet c) (hq : c.clearQ = [])
+    (c' : Cache) (hc' : c' = qClear c id) :
+    Quiet c' ∧ ∀ j, c'.store.items.get j = none := by
+  have hc1 : (c.clearReq id).1 = { c with clearQ := [id] } := by
+    simp [Cache.clearReq, q.opn, hq]
+  have hproc : ({ c with clearQ := [id] } : Cache).procClear =
+      some { ({ c with buf := [], clearQ := [] } : Cache) with
+        lfu := c.lfu.clear, store := c.store.clear, metrics := {}, released := id :: c.released } := by
+    simp [Cache.procClear, q.alive, q.buf]
+  have hform : c' = { ({ c with buf := [], clearQ := [] } : Cache) with
+      lfu := c.lfu.clear, store := c.store.clear, metrics := {}, released := id :: c.released } := by
+    rw [hc']; simp only [qClear, hc1, hproc, Option.getD_some]
+  have hstep1 : c.step su (.clearReq id) = some { c with clearQ := [id] } := by
+    simp only [Cache.step]; rw [hc1]
+  have hstep2 : ({ c with clearQ := [id] } : Cache).step su .procClear = some c' := by
+    simp only [Cache.step]; rw [hproc, hform]
+  refine ⟨?_, ?_⟩
+  · refine two_steps_quiet su c _ c' _ _ q hstep1 hstep2 trivial trivial trivial trivial ?_ ?_ ?_ ?_ ?_ <;>
+      (rw [hform]; try simp [q.pend, q.opn, q.alive])
+  · intro j; rw [hform]; simp [Store.clear, Store.empty]
+
+/-- operations of a sequential client that lets the cache quiesce after each of them -/
+inductive QOp
+  | insert (k cf v : Nat) (cost : Int) (ttl now : Nat) (coster : Int) (est : Nat → Int) (refills : List (List (Nat × Int)))
+  | remove (k cf : Nat) (est : Nat → Int) (refills : List (List (Nat × Int)))
+  | tick (now : Nat) (order : List (Nat × Nat))
+  | get (k cf now : Nat)
+  | clear (id : Nat)
+
+def qstep (su : Nat → Nat → Bool) (c : Cache) : QOp → Cache
+  | .insert k cf v cost ttl now coster est refills => qInsert su c k cf v cost ttl now coster est refills
+  | .remove k cf est refills => qRemove su c k cf est refills
+  | .tick now order => qTick c now order
+  | .get k cf now => (c.get k cf now).1
+  | .clear id => qClear c id
+
+/-- C04's premise, per operation: a new key finds room in the policy (the combined cost of what is
+charged plus the newcomer fits `max_cost` — `fits_implies_no_pressure`); the oracle inputs of a tick
+pass C05's guards -/
+def OpOk (c : Cache) : QOp → Prop
+  | .insert k _ _ cost _ _ coster _ _ => c.store.items.get k = none → NoPressure c (itemCost cost coster)
+  | .tick now order => C05.TickGuard c (.procTick now order)
+  | .clear _ => c.clearQ = []
+  | _ => True
+
+/-- one step of the abstract map with TTLs (`S` before, `S'` after); the tick is specified by its two
+obligations — nothing live is lost, everything due is gone — rather than by a function -/
+def SpecStep (su : Nat → Nat → Bool) (S S' : Nat → Option Entry) : QOp → Prop
+  | .insert k cf v _ ttl now _ _ _ =>
+    (∀ j, j ≠ k → S' j = S j) ∧
+    S' k = (match S k with
+      | none => some ⟨cf, v, ⟨ttl, now⟩⟩
+      | some e => if Store.conflictOk cf e && su e.val v then some { e with val := v, exp := ⟨ttl, now⟩ } else some e)
+  | .remove k cf _ _ =>
+    (∀ j, j ≠ k → S' j = S j) ∧
+    S' k = (match S k with | none => none | some e => if Store.conflictOk cf e then none else some e)
+  | .tick now _ =>
+    (∀ j e, S' j = some e → S j = some e) ∧
+    (∀ j e, S j = some e → (e.exp.d = 0 ∨ now < e.exp.created + e.exp.d) → S' j = some e) ∧
+    (∀ j e, S j = some e → e.exp.isZero = false → e.exp.storageBucket ≤ Time.cleanupBucket now → S' j = none)
+  | .get _ _ _ => ∀ j, S' j = S j
+  | .clear _ => ∀ j, S' j = none
+
+/-- **one quiescent operation refines one step of the map with TTLs** -/
+theorem qstep_refines (su : Nat → Nat → Bool) (c : Cache) (op : QOp) (q : Quiet c) (hok : OpOk c op) :
+    Quiet (qstep su c op) ∧ SpecStep su (fun k => c.store.items.get k) (fun k => (qstep su c op).store.items.get k) op := by
+  cases op with
+  | insert k cf v cost ttl now coster est refills =>
+    obtain ⟨h1, h2, h3⟩ := qInsert_refines su c k cf v cost ttl now coster est refills q hok _ rfl
+    exact ⟨h1, h2, h3⟩
+  | remove k cf est refills =>
+    obtain ⟨h1, h2, h3⟩ := qRemove_refines su c k cf est refills q _ rfl
+    exact ⟨h1, h2, h3⟩
+  | tick now order =>
+    obtain ⟨h1, h2, h3, h4⟩ := qTick_refines su c now order q hok _ rfl
+    exact ⟨h1, h2, h3, h4⟩
+  | get k cf now =>
+    obtain ⟨h1, h2⟩ := qGet_refines su c k cf now q
+    exact ⟨h1, fun j => by simp only [qstep]; rw [h2]⟩
+  | clear id =>
+    obtain ⟨h1, h2⟩ := qClear_refines su c id q hok _ rfl
+    exact ⟨h1, h2⟩
+
+/-- sequential histories: every operation is taken to quiescence and meets C04's premise -/
+inductive QRun (su : Nat → Nat → Bool) : Cache → List QOp → Cache → Prop
+  | nil (c : Cache) : QRun su c [] c
+  | snoc (c c' : Cache) (ops : List QOp) (op : QOp) : QRun su c ops c' → OpOk c' op → QRun su c (ops ++ [op]) (qstep su c' op)
+
+/-- runs of the abstract map -/
+inductive SpecRun (su : Nat → Nat → Bool) : (Nat → Option Entry) → List QOp → (Nat → Option Entry) → Prop
+  | nil (S : Nat → Option Entry) : SpecRun su S [] S
+  | snoc (S S' S'' : Nat → Option Entry) (ops : List QOp) (op : QOp) :
+      SpecRun su S ops S' → SpecStep su S' S'' op → SpecRun su S (ops ++ [op]) S''
+
+theorem init_quiet (cfg : Cfg) (maxCost : Int) (samples : Nat) (hcap : 0 < cfg.bufCap) :
+    Quiet (Cache.init cfg maxCost samples) := by
+  refine ⟨rfl, rfl, rfl, rfl, ?_, ?_, hcap⟩
+  · rcases C06.init_good cfg maxCost samples with he | h
+    · cases he
+    · exact h
+  · intro k e hk; simp [Cache.init, Store.empty] at hk
+
+/-- **C04, composed over sequential histories**: for every history of inserts (any TTLs, switching
+between TTL and none), removes, clears, lookups and cleanup ticks in which each operation is taken to
+quiescence and every new key finds room, the store of the cache *is* a run of the abstract map with
+TTLs from the empty map: a key inserted stays resident with exactly its last accepted value and TTL
+until it is removed, cleared, or a tick finds it expired; no tick removes a live entry, and every tick
+removes what is due; the final state is quiescent and satisfies C05's and C06's invariants. -/
+theorem refines_ttl_map (su : Nat → Nat → Bool) (cfg : Cfg) (maxCost : Int) (samples : Nat) (hcap : 0 < cfg.bufCap)
+    (ops : List QOp) (c : Cache) (hr : QRun su (Cache.init cfg maxCost samples) ops c) :
+    Quiet c ∧ SpecRun su (fun _ => none) ops (fun k => c.store.items.get k) := by
+  have gen : ∀ c0 ops c, QRun su c0 ops c → Quiet c0 →
+      Quiet c ∧ SpecRun su (fun k => c0.store.items.get k) ops (fun k => c.store.items.get k) := by
+    intro c0 ops c h
+    induction h with
+    | nil => intro q; exact ⟨q, SpecRun.nil _⟩
+    | snoc c' ops op _ hok ih =>
+      intro q
+      obtain ⟨q', sr⟩ := ih q
+      obtain ⟨q'', ss⟩ := qstep_refines su c' op q' hok
+      exact ⟨q'', SpecRun.snoc _ _ _ ops op sr ss⟩
+  have := gen _ ops c hr (init_quiet cfg maxCost samples hcap)
+  refine ⟨this.1, ?_⟩
+  have h0 : (fun k => (Cache.init cfg maxCost samples).store.items.get k) = (fun _ => (none : Option Entry)) := by
+    funext k; simp [Cache.init, Store.empty]
+  rw [← h0]; exact this.2
+
+/-- what a lookup returns is read off the map: the resident entry, unless its conflict hash differs or
+its TTL has elapsed -/
+theorem lookup_reads_map (c : Cache) (k cf now : Nat) (hopen : c.closed = false) :
+    (c.get k cf now).2 = (match c.store.items.get k with
+      | none => none
+      | some e => if !Store.conflictOk cf e then none
+                  else if !e.exp.isZero && e.exp.isExpired now then none else some e.val) := by
+  unfold Cache.get
+  simp only [hopen, Bool.false_eq_true, ↓reduceIte, Cache.ringPush_store]
+  unfold Store.get Store.lookup
+  cases hg : c.store.items.get k with
+  | none => rfl
+  | some e =>
+    simp only
+    by_cases h1 : (!Store.conflictOk cf e) = true
+    · simp [h1]
+    · by_cases h2 : (!e.exp.isZero && e.exp.isExpired now) = true
+      · simp [h1, h2]
+      · simp [h1, h2]
+
 -- non-vacuity ---------------------------------------------------------------------------------
 def exCfg : Cfg := { itemSize := 56, ignoreInternal := false, bufCap := 4, ringCap := 2, pqCap := some 3, metricsOn := false }
 example : NoPressure (Cache.init exCfg 1000 5) 10 := ⟨by decide, by decide⟩
+
+-- non-vacuity of the composed theorem: a concrete sequential history
+def exOp1 : QOp := .insert 3 0 77 5 0 10 0 (fun _ => 0) []
+def exOp2 : QOp := .insert 3 0 78 5 2000000000 20 0 (fun _ => 0) []
+def exOp3 : QOp := .tick 5000000000 [(3, 0)]
+example : QRun (fun _ _ => true) (Cache.init exCfg 1000 5) [exOp1] (qstep (fun _ _ => true) (Cache.init exCfg 1000 5) exOp1) :=
+  QRun.snoc _ _ [] exOp1 (QRun.nil _) (fun _ => ⟨by decide, by decide⟩)
+example : ((qstep (fun _ _ => true) (Cache.init exCfg 1000 5) exOp1).store.items.get 3) = some ⟨0, 77, ⟨0, 10⟩⟩ := by decide
+example : ((qstep (fun _ _ => true) (qstep (fun _ _ => true) (Cache.init exCfg 1000 5) exOp1) exOp2).store.items.get 3) =
+    some ⟨0, 78, ⟨2000000000, 20⟩⟩ := by decide
+example : ((qstep (fun _ _ => true) (qstep (fun _ _ => true) (qstep (fun _ _ => true) (Cache.init exCfg 1000 5) exOp1) exOp2) exOp3).store.items.get 3) =
+    none := by decide
 
 end Stretto.C04
 
@@ -169,3 +839,9 @@ end Stretto.C04
 #print axioms Stretto.C04.remove_applied
 #print axioms Stretto.C04.not_swept_early
 #print axioms Stretto.C04.fits_implies_no_pressure
+#print axioms Stretto.C04.qInsert_refines
+#print axioms Stretto.C04.qRemove_refines
+#print axioms Stretto.C04.qTick_refines
+#print axioms Stretto.C04.qstep_refines
+#print axioms Stretto.C04.refines_ttl_map
+#print axioms Stretto.C04.lookup_reads_map
